@@ -67,7 +67,15 @@ def strategy(draw):
                           st.fixed_dictionaries({"site": words, "file name(s)": st.lists(words, min_size=1, max_size=3), "gain": gen.floats(0.1, 10)},
                                                 optional={"operator": words})))
     text = meta is not None and any(ord(ch) > 127 for ch in str(meta))
-    return dict(rec=rec, ops=ops, meta=meta,
+    # raw digitiser counts: every sample a whole number (zeros of either sign after a polarity flip), optionally shifted
+    # beyond the int64 range - values a writer might be tempted to store as integers (seeded change C18-R6B)
+    counts = None
+    if draw(gen.chance(4)):
+        counts = dict(full_scale=draw(st.sampled_from([1, 3, 20, 1000, 2 ** 23])), flip=draw(st.booleans()),
+                      shift=draw(st.sampled_from([0, 0, 0, 40, 63, 70])))
+        if draw(st.booleans()):
+            ops.insert(0, dict(op="saveload"))
+    return dict(rec=rec, ops=ops, meta=meta, counts=counts,
                 # the same history evaluated in an interpreter whose default text encoding is not UTF-8 (legacy locale / Windows)
                 foreign=bool(text and any(o["op"] == "saveload" for o in ops) and draw(gen.chance(3))))
 
@@ -108,9 +116,20 @@ def check_case(case):
     r = case["rec"]
     dt = r["dt"]
     model = dict(zip(COMPS, gen.expand_recording_arrays(r)))
+    labels = []
+    cnt = case.get("counts")
+    if cnt:
+        for c in COMPS:
+            m = np.round(model[c] / max(float(np.max(np.abs(model[c]))), 1e-300) * cnt["full_scale"])
+            m = -m if cnt["flip"] else m
+            model[c] = m * 2.0 ** cnt["shift"]
+        labels.append("whole-number-counts")
+        if any(np.any((model[c] == 0) & np.signbit(model[c])) for c in COMPS):
+            labels.append("negative-zero-samples")
+        if any(np.max(np.abs(model[c])) >= 2.0 ** 63 for c in COMPS):
+            labels.append("whole-numbers-beyond-int64")
     rec = R(*(TS(model[c], dt) for c in COMPS), degrees_from_north=r["degrees_from_north"], meta=case["meta"])
     orient = float(rec.degrees_from_north)
-    labels = []
     modifying = 0
     nontrivial = False
     tmp = tempfile.mkdtemp(prefix="vf-c18-")
